@@ -207,8 +207,13 @@ def order_taint(prog: Program, model: Optional[Model], fi: FuncInfo) -> List[Tup
             return ks.pop() if len(ks) == 1 else "unknown"
         if isinstance(e, ast.BinOp) and isinstance(e.op, (ast.Sub, ast.BitOr, ast.BitAnd, ast.BitXor)):
             a, b = set_kind(e.left), set_kind(e.right)
+            view = any(isinstance(side, ast.Call) and isinstance(side.func, ast.Attribute) and side.func.attr in ("keys", "items")
+                       and not side.args for side in (e.left, e.right))
             if a is not None or b is not None:
-                return a if a not in (None, "unknown") else (b or "unknown")
+                r_ = a if a not in (None, "unknown") else (b or "unknown")
+                if r_ == "unknown" and view:
+                    return "key"        # a dict view combined with a set: a set of that dict's keys
+                return r_
             # dict views support set algebra and yield a set of keys (user keys: typically str)
             for side in (e.left, e.right):
                 if isinstance(side, ast.Call) and isinstance(side.func, ast.Attribute) and side.func.attr in ("keys", "items") and not side.args:
